@@ -76,7 +76,12 @@ def main():
     lines.append(f"| {sid} | {prop} | {status} | {nv} | {nc} |")
   missed = [r for r in res if not r[2].startswith("caught")]
   lines += ["", f"{len(res)} seeds, {len(res) - len(missed)} caught, {len(missed)} not: {[r[0] for r in missed]}"]
-  open(os.path.join(VERIF, "seeded", "REGRESSION.md"), "w").write("\n".join(lines) + "\n")
+  seed = os.environ.get("VERIF_SEED", "0")
+  name = "REGRESSION.md" if not only else "REGRESSION_partial.md"
+  if seed != "0":
+    name = name.replace(".md", f"_seed{seed}.md")
+  lines[0] += f", VERIF_SEED={seed}"
+  open(os.path.join(VERIF, "seeded", name), "w").write("\n".join(lines) + "\n")
   print("\n".join(lines[-3:]))
   shutil.rmtree(TMP, ignore_errors=True)
   return 0
